@@ -28,13 +28,21 @@ Finding keys (computed by Trace_Dnssec / the harness): dnssec/sign-error:<featur
         dnssec/sign-not-over-canonical-octets:<TYPE>:<feature>, dnssec/verify-rejects-valid:<kind>:<TYPE>:<feature>,
         dnssec/verify-accepts-invalid:<kind>:<first failing pre-check | signature>.
 
-Mutants (checks/mutants/C10), stage that catches each on the quick tier:
-  sort-whole-rr.diff        canonical order by whole RR (RDLENGTH first)   -> finish (1) sign-not-over-canonical-octets; pass 2 forge (5)
-  keep-duplicates.diff      repeated records signed twice                   -> pass 2 verify-rejects-valid:repeated; finish (1)
-  origttl-not-used.diff     record TTL left in the canonical form           -> pass 2 verify-rejects-valid:ttl; finish (1) when OrigTtl was set
-  mx-not-lowercased.diff    MX exchange keeps its case                      -> finish (1) ...:MX:rdata-name-uppercase; pass 2 rdata-name-case
-  labels-off-by-one.diff    owner labels <= Labels refused                  -> pass 2 verify-rejects-valid:orig (every plain owner)
+Mutants (checks/mutants/C10; each `VERIF_REPO=/tmp/comp-x bin/check C10 quick` exits 1), stage that catches each on the quick tier:
+  sort-whole-rr.diff        canonical order by whole RR (RDLENGTH first)   -> finish (1) sign-not-over-canonical-octets:*; pass 2
+                            verify-rejects-valid:forge* (5) and verify-accepts-invalid:signature:unaltered:*
+  keep-duplicates.diff      repeated records signed twice                   -> pass 2 verify-rejects-valid:repeated:*; finish (1) for signed sets with a repeat
+  origttl-not-used.diff     record TTL left in the canonical form           -> pass 2 verify-rejects-valid:ttl:*; finish (1) when OrigTtl was preset
+  mx-not-lowercased.diff    MX exchange keeps its case                      -> finish (1) ...:MX:rdata-name-uppercase; pass 2 verify-rejects-valid:MX:rdata-name-case
+  labels-off-by-one.diff    owner labels <= Labels refused                  -> pass 2 verify-rejects-valid:orig:* (every non-wildcard owner)
   protocol-unchecked.diff   DNSKEY protocol not looked at                   -> pass 2 verify-accepts-invalid:forge-key-protocol:protocol
+  reintroduce-nxt-not-lowercased.diff     reverse of fix fb0255f            -> finish (1) sign-not-over-canonical-octets:NXT:rdata-name-uppercase; pass 2
+                            verify-rejects-valid:NXT:rdata-name-case, verify-accepts-invalid:signature:unaltered:NXT:rdata-name-uppercase
+  reintroduce-star-prefix-wildcard.diff   reverse of fix f3cd792            -> pass 1 sign-fields:Labels:star-prefixed-label; finish (1) ...:star-prefixed-label
+  reintroduce-root-wildcard-dotdot.diff   reverse of fix ffb8107            -> pass 1 sign-error:wildcard-at-root (when *. is drawn); pass 2 verify-rejects-valid:wildcard-at-root
+Findings of this check on the originally pinned tree, since repaired in /repo: NXT next name not lower-cased (fb0255f); Sign took every
+owner starting with '*' for a wildcard (f3cd792: *a.example. signed as *.example., verifying for any name below example.); "*.." for a
+wildcard below the root (ffb8107).  Still listed: capital letters spelled \\DDD in the owner text are not folded (known-findings.d/C10.txt).
 """
 import os, json
 import vp
